@@ -332,7 +332,9 @@ func TestVerifC04(t *testing.T) {
 	rapid.Check(t, func(rt *rapid.T) {
 		c := genC04(rt)
 		v, nt, inc := runC04(c)
-		if inc || (v != nil && transportNoise(v.Message)) {
+		// a replica write that failed (a time-out on a busy machine) leaves an acknowledged operation with one copy
+		// fewer: the cluster was not healthy, which the property presupposes
+		if inc || (v != nil && (transportNoise(v.Message) || vReplicaErrorsSinceMark() > 0)) {
 			col.Inconclusive()
 			return
 		}
